@@ -7,6 +7,12 @@ compares the serialised data before and after and labels the case). -/
 def c04Op (args : List String) : String :=
   match args with
   | "DATA-MODIFIED" :: _ => "specfail DATA-MODIFIED law=caller-data-untouched"
+  | kind :: _ =>
+    let b := (kind.splitOn ":").headD ""
+    if b == "PERSIST" then "specfail " ++ kind ++ " law=assign-and-capture-bind-for-the-rest-of-the-render"
+    else if b == "SCOPED" then "specfail " ++ kind ++ " law=loop-variable-and-argument-visible-only-inside"
+    else if b == "CAPTURE" then "specfail " ++ kind ++ " law=capture-binds-exactly-the-body-text"
+    else renderOp baseFilters args
   | _ => renderOp baseFilters args
 
 end Liquid.Drv
